@@ -143,6 +143,7 @@ class AddedDiagLinearOperator(SumLinearOperator):
         return (precondition_closure, self._precond_lt, self._precond_logdet_cache)
 
     def _init_cache(self):
+        self._piv_chol_self = self._piv_chol_self.expand(*self.batch_shape, *self._piv_chol_self.shape[-2:])
         *batch_shape, n, k = self._piv_chol_self.shape
         self._noise = self._diag_tensor._diagonal().unsqueeze(-1)
 
